@@ -148,7 +148,9 @@ func readShard(rep *Report, in HamtInput, st *Store, root cid.Cid, expected map[
 	isShard := func(i int) bool { return i > 0 && !order[i].Missing && !order[i].IsRaw }
 	for _, f := range in.Faults {
 		if f[0] < len(order) && isShard(f[0]) {
-			st.Unavailable[order[f[0]].Cid.KeyString()] = uint64(f[1])
+			if _, dup := st.Unavailable[order[f[0]].Cid.KeyString()]; !dup {
+				st.Unavailable[order[f[0]].Cid.KeyString()] = uint64(f[1])
+			}
 		}
 	}
 	faulty := len(st.Unavailable) > 0
